@@ -107,6 +107,10 @@ def generate(rng, tier):
             s.add("newcache C")
             full = s.add("trace U C %s %s %s %d" % (hx(pc), regs, mid, depth + 6), tag="%s:%s:full:%d" % (arch, marker, depth))
             s.meta[full] = {"role": "full", "marker": marker, "arch": arch}
+            if arch == "x86" and marker == "nullfp":
+                # x86_64: the chain ends where rbp ITSELF is null; the record at `term` (saved rbp = 0: its caller
+                # merely has 0 in rbp) is a frame like any other and its return address is part of the walk
+                s.meta[full]["last_ra"] = 0x12f40
             cuts = list(range(base, top + 8, 8))
             if tier == "quick" and len(cuts) > 24:
                 cuts = sorted(set([cuts[0], cuts[1], cuts[-1]] + [rng.choice(cuts) for _ in range(20)]))
@@ -260,6 +264,9 @@ def judge(script, impl):
             if its[-1] != "ok none":
                 # scenarios are complete chains: they must end at the root marker
                 bad.append((ln, "walk over the complete stack did not complete with Ok(None) at the %s marker: %s" % (m["marker"], line[:400])))
+            elif "last_ra" in m and (len(its) < 2 or not its[-2].startswith("ok ra 0x%x " % m["last_ra"])):
+                bad.append((ln, "walk completed with Ok(None) before the root marker: the frame returning to %#x (frame record with a "
+                                "null saved rbp, rbp itself not null) is missing: %s" % (m["last_ra"], line[:400])))
             continue
         ref = items_of(impl.get(m["ref"]))
         cut = m["cut"]
